@@ -5,6 +5,7 @@ mod codec;
 mod ctx;
 mod iso;
 mod props;
+mod gen;
 
 use ctx::{Ctx, Tier};
 
